@@ -1452,17 +1452,10 @@ func (b *CFGBuilder) convertElifClauseToIf(elifNode *parser.Node) *parser.Node {
 		Orelse: elifNode.Orelse,
 	}
 
-	// Validation: panic if expected fields are missing (indicates parser bug)
-	// This is a programming error, not a user input error, so fail-fast is appropriate
-	if len(ifNode.Body) == 0 || ifNode.Test == nil {
-		panic(fmt.Sprintf(
-			"Invalid elif_clause node at %s:%d - parser bug detected (Test exists: %v, Body length: %d)",
-			elifNode.Location.File,
-			elifNode.Location.StartLine,
-			ifNode.Test != nil,
-			len(ifNode.Body),
-		))
-	}
+	// An elif clause without a test or a body comes from source with a syntax
+	// error that tree-sitter recovered from (e.g. a body holding only a comment).
+	// It is treated like an if statement with an empty body: aborting here would
+	// take the whole analysis run down because of one malformed file.
 
 	return ifNode
 }
